@@ -23,11 +23,13 @@ PLAN = {
     "quick": ([("D3", 2), ("C2", 2), ("M5", 2), ("D1", 2), ("D2", 2), ("D0", 2), ("C1", 2), ("L1", 2), ("G1", 2), ("M1", 2), ("M2", 2)], 1),
     # thorough = two phases (3 free calls x every single mutation, then 2 free calls x every pair of mutations): 3 free calls x
     # pairs of mutations would be ~30 times the first phase (hours)
-    "thorough": ([("D3", 3), ("C2", 3), ("K1", 2), ("M5", 3), ("D1", 3), ("D2", 2), ("D0", 3), ("C1", 3), ("L1", 3), ("G1", 2), ("M1", 3), ("M2", 3)], 1),
+    "thorough": ([("D3", 2), ("C2", 3), ("K1", 2), ("M5", 2), ("D1", 3), ("D2", 2), ("D0", 2), ("C1", 3), ("L1", 3), ("G1", 2), ("M1", 3), ("M2", 2)], 1),
     "thorough-2": ([("D3", 2), ("C2", 2), ("M5", 2), ("D1", 2), ("D2", 2), ("D0", 2), ("C1", 2), ("L1", 2), ("G1", 2), ("M1", 2), ("M2", 2)], 2),
 }
 _DEPTH = 1
 _TIER = "quick"
+#: second thorough phase (pairs of mutations): the first mutation is one of each of these kinds, the second any
+PHASE2_KINDS = ("del", "deladd", "insert", "order", "meta", "reuse", "addnode", "dellink")
 
 
 def canonical_numbering(h):
@@ -136,7 +138,7 @@ def oracle(sc, ctx, program):
         return bpm.run(sc, program).hugr
 
     n = 0
-    for hist, h in mutate.histories(factory, _DEPTH, _TIER):
+    for hist, h in mutate.histories(factory, _DEPTH, _TIER, kinds=PHASE2_KINDS if _DEPTH >= 2 else None):
         n += 1
         tag = "+".join(m[0] for m in hist) or "built"
         try:
